@@ -207,7 +207,9 @@ def run(ctx):
     # deterministic long histories on one parser: a failure, then hundreds of distinct texts; repeated failures
     long1 = ["4x +"] + [f"{k}x + {k + 1}" for k in range(400)] + ["4x +", "x + 1"]
     long2 = ["(((((((((( 1 + "] * 40 + ["(1 + 2) * x", "4 * sgn(x)"] + ["sgn(sgn(sgn(sgn(sgn(sgn(sgn(sgn(1"] * 40 + ["4 * sgn(x)"]
-    for h in (long1, long2):
+    pairs = [("7 + 1 2", "7 + 12"), ("s gn(3)", "sgn(3)"), ("1. 5", "1.5"), ("4 * -(3)", "4 * -3"), ("2.0x + 1", "2x + 1"), ("x\t+ 1", "x + 1"), ("SGN(x)", "sgn(x)"), ("12 4", "124")]
+    pair_histories = [[a, b, a, b] for a, b in pairs] + [[b, a, b, a] for a, b in pairs]
+    for h in [long1, long2] + pair_histories:
         ctx.count("evaluations")
         ctx.count("long_histories")
         check_history(ctx, {"history": h})
